@@ -107,11 +107,14 @@ def history(ctx):
             kw['fragment_masses'] = dict(case['masses'])
 
         def once():
-            with lib.quiet():
+            with lib.quiet(), lib.time_limit(30):
                 s = smod.MoleculeSampler.from_fragment_string(case['s'], **kw)
                 return json.dumps(lib.dump_mol(s.sample(case['target'], start_fragment=case.get('start'))), sort_keys=True)
         try:
             first = once()
+        except lib.CallTimeout:
+            ctx.fail(case, f'sample(target_weight={case["target"]}) did not return within 30 s: the growth loop does not stop')
+            continue
         except Exception:   # noqa: BLE001
             ctx.count('history', nontrivial=False)
             continue
@@ -123,12 +126,15 @@ def history(ctx):
             if 'masses' in other:
                 okw['fragment_masses'] = dict(other['masses'])
             try:
-                with lib.quiet():
+                with lib.quiet(), lib.time_limit(30):
                     smod.MoleculeSampler.from_fragment_string(other['s'], **okw).sample(3)
-            except Exception:   # noqa: BLE001
+            except (Exception, lib.CallTimeout):   # noqa: BLE001
                 pass
             second = once()
             third = once()
+        except lib.CallTimeout:
+            ctx.fail(case, 'a repeated construct-and-sample did not return within 30 s')
+            continue
         except Exception as err:   # noqa: BLE001
             ctx.fail(case, f'repeating construct-and-sample raised {type(err).__name__}')
             continue
